@@ -1,9 +1,10 @@
 (* C14 -- Shipped problems are closed and their state index is consistent.  The index function and the
    enumeration are C19's (about the definitions translated from spaces.py); closure is proved for ALL parameters,
    for EVERY event (not only positive-probability ones). *)
-From Coq Require Import ZArith List Bool.
-From MdpaxV Require Import Model.ListUtil Model.Spaces Model.Problems Model.ProblemOps Proofs.C19P Proofs.C14P Proofs.GenDeMoorP.
-From MdpaxGen Require Import GenDeMoor.
+From Coq Require Import ZArith List Bool Lia.
+From MdpaxV Require Import Model.ListUtil Model.Spaces Model.Problems Model.ProblemOps Proofs.C19P Proofs.C14P Proofs.GenDeMoorP Proofs.GenMirjaliliP.
+From MdpaxGen Require GenDeMoor GenMirjalili.
+Import GenDeMoor.
 Import ListNotations.
 Open Scope Z_scope.
 
@@ -41,6 +42,17 @@ Theorem mirjalili_closed : forall m Qmax state d rec, (1 <= m)%nat -> 0 <= Qmax 
   length (mj_next m Qmax state d rec) = m.
 Proof. exact mirjalili_closed_l. Qed.
 Print Assumptions mirjalili_closed.
+
+Theorem generated_mirjalili_transition_closed : forall (m : nat) (Qmax : Z) c1 c2 c3 c4 c5, (1 <= m)%nat -> 0 <= Qmax ->
+  forall w stock q d rec, length stock = (m - 1)%nat -> length rec = m -> 0 <= w <= 6 -> 0 <= d ->
+  let nxt := fst (GenMirjalili.gen_transition m Qmax c1 c2 c3 c4 c5 (w :: stock) [q] (d :: rec)) in
+  0 <= hd 0 nxt <= 6 /\ Forall (fun x => 0 <= x <= Qmax) (tl nxt) /\ length nxt = m.
+Proof.
+  intros m Qmax c1 c2 c3 c4 c5 Hm HQ w stock q d rec Hs Hr Hw Hd nxt. unfold nxt.
+  rewrite (proj1 (gen_mj_transition_eq m Qmax c1 c2 c3 c4 c5 HQ Hm w stock q d rec Hs Hr)).
+  apply mirjalili_closed_l; try assumption. simpl. lia.
+Qed.
+Print Assumptions generated_mirjalili_transition_closed.
 
 Theorem forest_closed : forall S age cut fire, 1 <= S -> 0 <= age <= S - 1 -> 0 <= forest_next S age cut fire <= S - 1.
 Proof. exact forest_closed_l. Qed.
